@@ -105,6 +105,20 @@ func (st *SplitTracker) AvailableSplits() []SourceSplitterShard {
 	return available
 }
 
+// KnownSplits returns all tracked splits ordered by split ID: the assigned ones
+// and the ones still waiting for a parent to finish.
+func (st *SplitTracker) KnownSplits() []SourceSplitterShard {
+	st.mu.Lock()
+	defer st.mu.Unlock()
+
+	known := make([]SourceSplitterShard, 0, st.knownSplits.Size())
+	for _, split := range st.knownSplits.All() {
+		known = append(known, split)
+	}
+
+	return known
+}
+
 func (st *SplitTracker) AssignedSplits() []SourceSplitterShard {
 	st.mu.Lock()
 	defer st.mu.Unlock()
